@@ -833,7 +833,14 @@ def format_docstring(obj: model.Documentable) -> Tag:
                 fh.handle(Field.from_epydoc(field, source))
     if isinstance(obj, model.Function):
         fh.resolve_types()
-    ret(fh.format())
+    if source is not None:
+        # The bodies of @see, @note, @author and @since fields are only formatted now: their links are
+        # shortened for the page of the object as well.
+        with source.docstring_linker.switch_context(obj):
+            source.docstring_linker.reporting_obj = source
+            ret(fh.format())
+    else:
+        ret(fh.format())
     return ret
 
 def format_summary_fallback(errs: List[ParseError], parsed_doc:ParsedDocstring, ctx:model.Documentable) -> Tag:
